@@ -10,15 +10,20 @@ Stack (bottom -> top):
                                                same state-machine transitions on the real
                                                WANoiseProtocol, real WANoiseTransport over identity ciphers
   4 YowCoderLayer                (real)
-  5 probe P1
-  6 YowParallelLayer(YowAuthenticationProtocolLayer, YowIqProtocolLayer, probe P2)   (real)
-  7 YowInterfaceLayer            (real)
-  8 probe P3 = the application: records events and entities
+  5 probe P1                                   directly below the axolotl control layer
+  6 AxolotlControlLayer          (real)       where YowStackBuilder.getDefaultLayers puts it (above the core layers,
+                                               below the protocol group); real YowProfile -> AxolotlManagerFactory ->
+                                               AxolotlManager -> SQLite store in a scratch profile directory
+  7 YowParallelLayer(YowAuthenticationProtocolLayer, YowIqProtocolLayer, probe P2)   (real)   P2 is above the control layer
+  8 YowInterfaceLayer            (real)
+  9 probe P3 = the application: records events and entities
+(the axolotl send/receive pair of the default stack is not in the rig: it does not react to connection events
+beyond storing / dropping the manager reference.)
 
 Observations are tuples (observer, item): observer 0..3 = probes, 4 = dispatcher calls,
 5 = noise handshake worker, 6 = application entities, 7 = exceptions escaping an entry point.
 """
-import threading, struct
+import threading, struct, os, shutil, io, contextlib, itertools
 
 OBS_DISP, OBS_NOISE, OBS_APP, OBS_EXC = 4, 5, 6, 7
 
@@ -30,7 +35,7 @@ REASONS = {None: R_NONE, "": R_NONE, "Authentication Failure": R_AUTHFAIL, "Ping
 # dispatcher call kinds
 D_CREATE, D_CONNECT, D_DISCONNECT, D_WRITE = 0, 1, 2, 3
 # write classes
-W_HEADER, W_PING, W_APP, W_OTHER = 0, 1, 2, 3
+W_HEADER, W_PING, W_APP, W_OTHER, W_KEYS = 0, 1, 2, 3, 4
 # application entity kinds
 A_SUCCESS, A_FAILURE, A_STREAMERROR, A_PONG, A_OTHER = 0, 1, 2, 3, 4
 KINDS = ["conflict", "ack", "xml-not-well-formed"]
@@ -78,7 +83,8 @@ class IdCipher(object):
 
 
 class Rig(object):
-    def __init__(self, repo_mods, reconnect_opt=True, passive=False, ping=True, reconnect_prop_set=True):
+    def __init__(self, repo_mods, reconnect_opt=True, passive=False, ping=True, reconnect_prop_set=True,
+                 unsent=False):
         m = repo_mods
         self.m = m
         self.trace = []          # current step's observations
@@ -88,6 +94,9 @@ class Rig(object):
         self.ping_ids = []       # real ping id -> ordinal = index
         self.app_seq = 0
         self.down_writes = []    # property oracle: writes to a dispatcher that is not up
+        self.keys_pending = None # (dispatcher index, stanza id) of the unanswered set-keys iq, if any
+        self.keys_uploads = 0
+        self.store_dirty = False
         rig = self
 
         YowLayer = m["YowLayer"]
@@ -219,18 +228,24 @@ class Rig(object):
 
         props = {m["YowIqProtocolLayer"].PROP_PING_INTERVAL: 1 if ping else 0,
                  m["YowAuthenticationProtocolLayer"].PROP_PASSIVE: passive,
-                 "profile": m["make_profile"]()}
+                 }
+        self.profile, self.profile_dir, self._store_stat = m["stores"].acquire(unsent)
+        props["profile"] = self.profile
         if reconnect_prop_set:
             props[m["YowInterfaceLayer"].PROP_RECONNECT_ON_STREAM_ERR] = reconnect_opt
         self.queue = m["YowStack"]._YowStack__detachedQueue
         self.drain_all(run=False)
         layers = (m["YowNetworkLayer"], P0, m["YowNoiseSegmentsLayer"], m["YowNoiseLayer"], m["YowCoderLayer"], P1,
+                  m["AxolotlControlLayer"],
                   m["YowParallelLayer"]((m["YowAuthenticationProtocolLayer"], m["YowIqProtocolLayer"], P2)),
                   m["YowInterfaceLayer"], P3)
         self.stack = m["YowStack"](layers, reversed=False, props=props)
         self.net = self.stack.getLayer(0)
         self.noise = self.stack.getLayer(3)
-        self.iface = self.stack.getLayer(7)
+        self.ctl = self.stack.getLayer(6)
+        self.group = self.stack.getLayer(7)
+        self.iface = self.stack.getLayer(8)
+        self.iq = [x for x in self.group.sublayers if type(x) is m["YowIqProtocolLayer"]][0]
         self.encoder = m["WriteEncoder"](m["TokenDictionary"]())
         self.decoder = m["ReadDecoder"](m["TokenDictionary"]())
 
@@ -243,6 +258,7 @@ class Rig(object):
         for mod, name, val in self._saved + self._class_patches:
             setattr(mod, name, val)
         self.drain_all(run=False)
+        self.m["stores"].release(self)
 
     def drain_all(self, run=False):
         q = self.m["YowStack"]._YowStack__detachedQueue
@@ -314,6 +330,11 @@ class Rig(object):
             if node is not None and node.tag == "iq" and node["xmlns"] == "w:p":
                 i = self.ping_ids.index(node["id"]) if node["id"] in self.ping_ids else 999
                 self.obs(OBS_DISP, (D_WRITE, W_PING, i, up))
+            elif node is not None and node.tag == "iq" and node["xmlns"] == "encrypt" and node["type"] == "set":
+                self.keys_uploads += 1
+                if up:
+                    self.keys_pending = (disp.idx, node["id"])
+                self.obs(OBS_DISP, (D_WRITE, W_KEYS, 0, up))
             elif node is not None and node.tag == "iq" and (node["id"] or "").startswith("c16app"):
                 self.obs(OBS_DISP, (D_WRITE, W_APP, 0, up))
             else:
@@ -325,6 +346,18 @@ class Rig(object):
 
     def noise_state(self):
         return self.noise._wa_noiseprotocol.state     # consonance public property
+
+    def passive_prop(self):
+        return bool(self.stack.getProp(self.m["YowAuthenticationProtocolLayer"].PROP_PASSIVE, False))
+
+    def store_has_unsent(self):
+        with contextlib.redirect_stdout(io.StringIO()):
+            return len(self.profile.axolotl_manager.load_unsent_prekeys()) > 0
+
+    def keys_answerable(self):
+        d = self.cur()
+        return self.keys_pending is not None and d is not None and d.idx == self.keys_pending[0] and \
+            self.stanza_enabled()
 
     def live_ping_threads(self):
         return [t for t in self.ping_threads if t._c16.state != "dead"]
@@ -375,6 +408,11 @@ class Rig(object):
         return d is not None and d.phase == "up" and self.noise_state() in ("handshake", "transport")
 
     def step(self, ev):
+        # AxolotlManager.level_prekeys writes progress to sys.stdout when its logger has no level
+        with contextlib.redirect_stdout(io.StringIO()):
+            return self._step(ev)
+
+    def _step(self, ev):
         """run one history event; returns (enabled, observations).  Events that are not enabled by the
         environment (e.g. data on a closed socket) are skipped and return (False, [])."""
         self.trace = []
@@ -392,6 +430,7 @@ class Rig(object):
         elif kind == "disp_connected":
             if d is not None and d.phase == "connecting":
                 d.phase = "up"
+                self.keys_pending = None      # nothing has been sent on the new connection yet
                 self._guard(d.cb.onConnected)
             else:
                 en = False
@@ -424,6 +463,18 @@ class Rig(object):
                 pid = self.ping_ids[i] if i < len(self.ping_ids) else "c16-unknown-%d" % i
                 self._guard(lambda: self.deliver(Node("iq", {"type": "result", "id": pid,
                                                                "from": "s.whatsapp.net"})))
+        elif kind in ("keys_result", "keys_error"):
+            if not self.keys_answerable():
+                en = False
+            else:
+                kid = self.keys_pending[1]
+                self.keys_pending = None
+                self.store_dirty = True
+                n = Node("iq", {"type": "result" if kind == "keys_result" else "error", "id": kid,
+                                "from": "s.whatsapp.net"})
+                if kind == "keys_error":
+                    n.addChild(Node("error", {"code": "500", "text": "internal-server-error"}))
+                self._guard(lambda: self.deliver(n))
         elif kind == "tick":
             # one keep-alive interval elapses: every ping thread wakes once (stopped ones exit silently)
             for th in self.live_ping_threads():
@@ -447,7 +498,76 @@ class Rig(object):
         return en, list(self.trace)
 
 
-def load_repo_mods():
+class StorePool(object):
+    """Profile directories with a prepared axolotl store, in the scratch directory of the run.  Two templates
+    are built once with the real manager (COUNT_GEN_PREKEYS small but not below THRESHOLD_REGEN, so that a later
+    CONNECTED does not generate again): `unsent` = one-time prekeys generated and never uploaded (what a fresh
+    registration leaves behind), `sent` = the same with every prekey marked as sent.  A history that did not
+    write to its store returns its directory to the pool."""
+    BATCH = 12
+
+    def __init__(self, scratch, make_profile, manager_cls):
+        self.scratch = os.path.join(scratch, "c16-stores-%d" % os.getpid())
+        shutil.rmtree(self.scratch, ignore_errors=True)
+        os.makedirs(self.scratch)
+        self.make_profile, self.M = make_profile, manager_cls
+        self.templates, self.free = {}, {True: [], False: []}
+        self.n = 0
+
+    def _template(self, unsent):
+        if unsent in self.templates:
+            return self.templates[unsent]
+        d = os.path.join(self.scratch, "tpl-unsent" if unsent else "tpl-sent")
+        os.makedirs(d)
+        saved = self.M.COUNT_GEN_PREKEYS
+        self.M.COUNT_GEN_PREKEYS = max(self.BATCH, self.M.THRESHOLD_REGEN)
+        try:
+            with contextlib.redirect_stdout(io.StringIO()):
+                mgr = self.make_profile(d).axolotl_manager
+                mgr.level_prekeys()
+                mgr.load_latest_signed_prekey(generate=True)
+                if not unsent:
+                    mgr.set_prekeys_as_sent(mgr.load_unsent_prekeys())
+        finally:
+            self.M.COUNT_GEN_PREKEYS = saved
+        del mgr
+        self.templates[unsent] = d
+        return d
+
+    @staticmethod
+    def _stat(d):
+        st = os.stat(os.path.join(d, "axolotl.db"))
+        return (st.st_size, st.st_mtime_ns)
+
+    def acquire(self, unsent):
+        unsent = bool(unsent)
+        if self.free[unsent]:
+            d = self.free[unsent].pop()
+        else:
+            tpl = self._template(unsent)
+            self.n += 1
+            d = os.path.join(self.scratch, "s%d" % self.n)
+            shutil.copytree(tpl, d)
+        return self.make_profile(d), d, (unsent, self._stat(d))
+
+    def release(self, rig):
+        unsent, stat = rig._store_stat
+        d = rig.profile_dir
+        rig.profile = None
+        try:
+            clean = not rig.store_dirty and self._stat(d) == stat
+        except OSError:
+            clean = False
+        if clean:
+            self.free[unsent].append(d)
+        else:
+            shutil.rmtree(d, ignore_errors=True)
+
+    def close(self):
+        shutil.rmtree(self.scratch, ignore_errors=True)
+
+
+def load_repo_mods(scratch=None):
     import yowsup.layers as L
     import yowsup.layers.network.layer as netmod
     import yowsup.layers.noise.layer as noisemod
@@ -466,10 +586,18 @@ def load_repo_mods():
     from yowsup.config.v1.config import Config
     from consonance.structs.keypair import KeyPair
 
+    from yowsup.layers.axolotl.layer_control import AxolotlControlLayer
+    from yowsup.axolotl.manager import AxolotlManager
+    import tempfile
+
     kp = KeyPair.generate()
 
-    def make_profile():
-        return YowProfile("c16", Config(phone="4915200000000", client_static_keypair=kp))
+    def make_profile(directory):
+        return YowProfile(directory, Config(phone="4915200000000", client_static_keypair=kp))
+
+    if scratch is None:
+        scratch = tempfile.mkdtemp(prefix="c16rig-")
+    stores = StorePool(scratch, make_profile, AxolotlManager)
 
     return {"YowLayer": L.YowLayer, "YowLayerEvent": L.YowLayerEvent, "YowParallelLayer": L.YowParallelLayer,
             "netmod": netmod, "noisemod": noisemod, "iqmod": iqmod,
@@ -479,4 +607,5 @@ def load_repo_mods():
             "YowAuthenticationProtocolLayer": YowAuthenticationProtocolLayer,
             "YowIqProtocolLayer": iqmod.YowIqProtocolLayer, "YowPingThread": iqmod.YowPingThread,
             "YowInterfaceLayer": YowInterfaceLayer, "IqProtocolEntity": IqProtocolEntity,
-            "YowStack": YowStack, "ProtocolTreeNode": ProtocolTreeNode, "make_profile": make_profile}
+            "YowStack": YowStack, "ProtocolTreeNode": ProtocolTreeNode, "make_profile": make_profile,
+            "AxolotlControlLayer": AxolotlControlLayer, "AxolotlManager": AxolotlManager, "stores": stores}
